@@ -128,6 +128,14 @@ class Expi:
         return {"type": "amp*exp(i k x)", "k": self.k, "amp": [self.amp.real, self.amp.imag]}
 
 
+def off_by(m, v, e):
+    """distance between result v and expectation e as the method's tolerance applies to it: Clenshaw-Curtis integrates the real
+    and the imaginary part separately to the requested tolerance (max of the two component errors), every other method is
+    judged on the modulus"""
+    dr, di = abs(float(v[0] - e[0])), abs(float(v[1] - e[1]))
+    return max(dr, di) if m["m"] == "cc" else math.hypot(dr, di)
+
+
 def cdiff(v, e):
     """|v - e| for v a pair of Fractions/floats and e likewise (exact when both are Fractions)"""
     dr, di = v[0] - e[0], v[1] - e[1]
@@ -156,6 +164,13 @@ def call_text(m, dim=1):
 
 
 # ------------------------------------------------------------------------------------------------ running jobs
+def with_budget(j):
+    """every integrate call runs under the evaluation budget: the integrand panics once it has been called that often"""
+    if j.get("op") in ("int1", "int2") and "eval_budget" not in j:
+        j = dict(j, eval_budget=EVAL_BUDGET[1 if j["op"] == "int1" else 2])
+    return {k: v for k, v in j.items() if v is not None}
+
+
 def run_jobs(ctx, binp, jobs, nproc=None):
     """returns id -> observation.  Jobs are spread over several harness processes; a process that reports a timeout
     is restarted on the jobs after the one that timed out.  Jobs carrying `threads` run in a process whose rayon pool
@@ -180,7 +195,7 @@ def run_jobs(ctx, binp, jobs, nproc=None):
             if ntimeouts >= 4:
                 break          # circuit breaker: this code path hangs on everything; the timeouts seen so far are reported
             lim = sum(j.get("limit_ms", 20000) for j in remaining) / 1000.0 + 30
-            text = "\n".join(json.dumps({k: v for k, v in j.items() if k != "heavy"}) for j in remaining) + "\n"
+            text = "\n".join(json.dumps(with_budget({k: v for k, v in j.items() if k != "heavy"})) for j in remaining) + "\n"
             env = dict(os.environ)
             if remaining[0].get("threads"):
                 env["RAYON_NUM_THREADS"] = str(remaining[0]["threads"])
@@ -254,6 +269,10 @@ class Cases:
 
     def int1(self, m, a, b, f, limit=LIMIT_1D_MS, trace=False, via=None, heavy=False, threads=None):
         j = {"id": self.jid("i"), "op": "int1", "method": m, "a": hx(a), "b": hx(b), "f": f.job(), "limit_ms": limit}
+        try:
+            j["L1_abs"] = l1_norm(f, a, b)       # int |f|: classifies Gauss-Kronrod panics (the harness ignores this field)
+        except (OverflowError, ZeroDivisionError):
+            pass
         if threads:
             j["threads"] = threads
         if trace:
@@ -284,7 +303,7 @@ def method_accuracy(m, f, a, b):
     S = f.scale(a, b)
     base = TOL12 * max(S, 1e-300)
     if m["m"] == "simpson":
-        n = NODE_COUNTS.get(m["divs"], m["divs"] + m["divs"] % 2 - 2)     # divisions the code really uses (phase 0)
+        n = m["divs"] - 2          # from the REQUESTED divs (C12_norm_bounds: the code uses between divs - 2 and divs divisions)
         if isinstance(f, Poly):
             if len(f.cs) <= 4:
                 return base, "exact(degree<=3)"
@@ -329,7 +348,7 @@ def build_cases(ctx, rng, deep=False, counts=None):
     C.checks.append({"kind": "accept", "id": "acc"})
     # divs = 0 is outside the property's range (4..400); recorded as a note only: `0 + 0 % 2 - 2` wraps in release builds
     C.add({"id": "divs0", "op": "int1", "method": {"m": "simpson", "divs": 0}, "a": hx(0.0), "b": hx(1.0),
-           "f": Poly([(1.0, 0.0)]).job(), "limit_ms": 1000, "heavy": True})
+           "f": Poly([(1.0, 0.0)]).job(), "limit_ms": 1000, "heavy": True, "eval_budget": None})
     C.checks.append({"kind": "divs0", "id": "divs0"})
     # ---- B: Simpson rule extraction
     divs_list = sample_divs(rng, ctx.tier, deep) if quick else list(range(5, 402))
@@ -458,17 +477,36 @@ def build_cases(ctx, rng, deep=False, counts=None):
             g = Poly([(rng.uniform(-1, 1), 0.0) for _ in range(rng.randint(7, 10))])
             ig = Poly([(0.0, cr) for cr, _ in g.cs])
             i_g, i_ig = C.int1(m, a, b, g), C.int1(m, a, b, ig)
-            for jid, f in ((i_g, g), (i_ig, ig)):
-                C.checks.append({"kind": "accuracy1", "id": jid, "method": m, "a": a, "b": b, "f": f, "tol": t + TOL12 * f.scale(a, b),
-                                 "clause": "requested tolerance (absolute, as the code applies it)"})
+            # (no accuracy clause: a polynomial of degree > 3 is outside the exactness class and is not an oscillatory integrand; the
+            # error estimate of adaptive Simpson is heuristic there.)  Multiplying the integrand by i only swaps the components, every
+            # acceptance decision sees the same |delta|: I[i g] = i I[g] up to rounding.
             C.checks.append({"kind": "linear1", "ids": [i_g, i_g, i_ig], "method": m, "a": a, "b": b, "p": g, "g": g,
-                             "alpha": 1j, "beta": 0j, "tol": 2 * t + TOL12 * g.scale(a, b)})
+                             "alpha": 1j, "beta": 0j, "tol": TOL12 * g.scale(a, b)})
     # adaptive Simpson where max_depth binds: C12_adaptive_terminates bounds the number of integrand evaluations by 2^(depth+1)+1
     for depth in (1, 2, 3, 5):
         m = {"m": "asimp", "tol": hx(1e-12), "depth": depth}
         a, b = C.interval()
         i1 = C.int1(m, a, b, C.expi())
         C.checks.append({"kind": "eval_bound", "id": i1, "method": m, "dim": 1})
+    # Gauss-Kronrod inside the regime that never panics on the unchanged tree (small integrals, max_depth >= 200): accuracy,
+    # reversal and linearity are checked on these whatever happens to the known-panic regime
+    for depth in ([200, 1000] if quick else [200, 200, 1000, 1000]):
+        for t in ([1e-6] if quick else [1e-3, 1e-9]):
+            m = {"m": "gk", "tol": hx(t), "depth": depth}
+            a = rng.uniform(-1.0, 0.5)
+            b = a + rng.uniform(0.5, 1.0)
+            p, g = C.cpoly(rng.randint(2, 6), mag=0.05), C.cpoly(rng.randint(2, 6), mag=0.05)
+            e = Expi(rng.uniform(1.0, 8.0), 0.1 * cmath.exp(1j * rng.uniform(0, 2 * math.pi)))
+            for f in (p, e):
+                tol, clause = method_accuracy(m, f, a, b)
+                i1, i2 = C.int1(m, a, b, f), C.int1(m, b, a, f)
+                C.checks.append({"kind": "accuracy1", "id": i1, "method": m, "a": a, "b": b, "f": f, "tol": tol, "clause": clause, "gk_ok_regime": True})
+                C.checks.append({"kind": "reverse1", "ab": i1, "ba": i2, "method": m, "a": a, "b": b, "f": f, "tol": tol})
+            al, be = complex(rng.uniform(-1, 1), rng.uniform(-1, 1)), complex(rng.uniform(-1, 1), rng.uniform(-1, 1))
+            h = p.lin(al, g, be)
+            tp, tg, th = (method_accuracy(m, x, a, b)[0] for x in (p, g, h))
+            C.checks.append({"kind": "linear1", "ids": [C.int1(m, a, b, p), C.int1(m, a, b, g), C.int1(m, a, b, h)], "method": m, "a": a, "b": b,
+                             "p": p, "g": g, "alpha": al, "beta": be, "tol": abs(al) * tp + abs(be) * tg + th})
     # the direct entry points agree with the Integrator dispatch
     for d in (50, 51):
         a, b = C.interval()
@@ -539,18 +577,81 @@ def build_cases(ctx, rng, deep=False, counts=None):
                   "f": {"t": "poly2", "c": [[[hx(re), hx(im)] for re, im in row] for row in cjk]}, "limit_ms": LIMIT_2D_MS}
             C.add(j3)
             C.checks.append({"kind": "poly2", "id": j3["id"], "method": m, "rect": [a, b, c, d], "c": cjk})
+    # ---- H2: the adaptive methods in 2-D beyond bicubics: exp(i(kx x + ky y)) and products of degree 5..7 at tight tolerances
+    # (the nested form hands the SAME tolerance to both levels: C12_adaptive_2d_nest, C12_cc_gk_adapters)
+    m2a = [{"m": "asimp", "tol": hx(t), "depth": 40} for t in ([1e-6, 1e-8] if quick else [1e-5, 1e-6, 1e-7, 1e-8, 1e-9])]
+    m2a += [{"m": "cc", "tol": hx(t)} for t in ([1e-8] if quick else [1e-6, 1e-9, 1e-12])]
+    for m in m2a:
+        for kind in ("expi2", "sepexp", "poly"):
+            a = rng.uniform(-1.0, 0.5)
+            b = a + rng.uniform(1.0, 2.0)
+            c = rng.uniform(-1.0, 0.5)
+            d = c + rng.uniform(1.0, 1.5)
+            t = fl(m["tol"])
+            if kind == "poly":
+                p, q = C.cpoly(rng.randint(5, 7)), C.cpoly(rng.randint(5, 7))
+                fj = {"t": "sep", "p": p.job(), "q": q.job()}
+                ex = cmulq(p.exact(a, b), q.exact(c, d))
+                S = p.scale(a, b) * q.scale(c, d)
+                desc = f"p(x) q(y), p = {p.desc()}, q = {q.desc()}"
+            else:
+                kx, ky = rng.uniform(2.0, 6.0) * rng.choice([-1, 1]), rng.uniform(2.0, 5.0) * rng.choice([-1, 1])
+                amp = cmath.exp(1j * rng.uniform(0, 2 * math.pi))
+                ex_c = Expi(kx, amp).exact(a, b)
+                ey_c = Expi(ky, 1.0).exact(c, d)
+                ex = cmulq(ex_c, ey_c)
+                S = abs(b - a) * abs(d - c)
+                if kind == "expi2":
+                    fj = {"t": "expi2", "kx": hx(kx), "ky": hx(ky), "amp": [hx(amp.real), hx(amp.imag)]}
+                else:
+                    fj = {"t": "sep", "p": Expi(kx, amp).job(), "q": Expi(ky, 1.0).job()}
+                desc = f"amp exp(i(kx x + ky y)), kx = {kx!r}, ky = {ky!r}, amp = {[amp.real, amp.imag]}"
+            j = {"id": C.jid("t"), "op": "int2", "method": m, "a": hx(a), "b": hx(b), "c": hx(c), "d": hx(d), "f": fj, "limit_ms": LIMIT_2D_MS}
+            C.add(j)
+            # the inner integrals are each within tol, integrated over the outer side; the outer integration adds tol
+            C.checks.append({"kind": "accuracy2", "id": j["id"], "method": m, "rect": [a, b, c, d], "exact": ex, "desc": desc,
+                             "tol": t * (1.0 + abs(b - a)) + TOL12 * S})
+    # nest consistency by evaluation counts (sharp where accuracy is not: both methods are far more accurate than asked).
+    # f(x,y) = g(x) on a unit-height strip: every inner integral sees a constant; f(x,y) = g(y) on a unit-width strip: the
+    # outer integrand is constant.  The number of integrand evaluations of the 2-D call is then fixed by 1-D calls of the
+    # same method with the same tolerance.
+    one = Poly([(1.0, 0.0)])
+    for m in ([{"m": "asimp", "tol": hx(t), "depth": 40} for t in ([1e-8] if quick else [1e-6, 1e-8, 1e-10])] +
+              [{"m": "cc", "tol": hx(t)} for t in ([1e-8] if quick else [1e-6, 1e-8, 1e-10])]):
+        for which in ("outer", "inner"):
+            if m["m"] == "cc":
+                # k L ~ 16: Clenshaw-Curtis needs one more doubling at 1e-8 than at 1e-4, so a loosened tolerance shows in the count
+                g = Expi(rng.uniform(7.5, 8.5) * rng.choice([-1, 1]), cmath.exp(1j * rng.uniform(0, 2 * math.pi)))
+                lo = rng.uniform(-1.0, 0.0)
+                hi = lo + 2.0
+            else:
+                g = Expi(rng.uniform(5.0, 9.0) * rng.choice([-1, 1]), cmath.exp(1j * rng.uniform(0, 2 * math.pi)))
+                lo = rng.uniform(-1.0, 0.0)
+                hi = lo + rng.uniform(1.5, 2.0)
+            u0 = float(rng.randint(-2, 1))
+            if which == "outer":
+                rect, fj = [lo, hi, u0, u0 + 1.0], {"t": "sep", "p": g.job(), "q": one.job()}
+            else:
+                rect, fj = [u0, u0 + 1.0, lo, hi], {"t": "sep", "p": one.job(), "q": g.job()}
+            j = {"id": C.jid("t"), "op": "int2", "method": m, "a": hx(rect[0]), "b": hx(rect[1]), "c": hx(rect[2]), "d": hx(rect[3]),
+                 "f": fj, "limit_ms": LIMIT_2D_MS}
+            C.add(j)
+            ig = C.int1(m, lo, hi, g, trace=True)
+            ic = C.int1(m, u0, u0 + 1.0, Poly([(1.0, 1.0)]), trace=True)
+            C.checks.append({"kind": "nest2d", "id": j["id"], "ig": ig, "ic": ic, "method": m, "which": which, "rect": rect, "g": g})
     # Gauss-Kronrod 2-D (finding F5d: nested adaptive integration whose convergence test ignores the requested tolerance)
     gk2 = [(Poly([(0.0, 0.0), (1.0, 0.0)]), Poly([(0.0, 0.0), (1.0, 0.0)]), LIMIT_2D_MS),
            (Poly([(0.0, 0.0)] * 3 + [(1.0, 0.0)]), Poly([(0.0, 0.0)] * 2 + [(1.0, 0.0)]), LIMIT_2D_MS)]
     # a fixed complex cubic x quadratic (seed-independent): > 10^7 integrand evaluations on the pinned tree
     r5 = random.Random(5)
     gk2.append((Poly([(r5.uniform(-1, 1), r5.uniform(-1, 1)) for _ in range(4)]),
-                Poly([(r5.uniform(-1, 1), r5.uniform(-1, 1)) for _ in range(3)]), 6_000 if quick else 10_000))
+                Poly([(r5.uniform(-1, 1), r5.uniform(-1, 1)) for _ in range(3)]), 90_000))   # ended by the evaluation budget, not the clock
     for p, q, lim in gk2:
         a, b, c, d = 0.0, 1.0, 0.0, 1.0
         m = {"m": "gk", "tol": hx(1e-6), "depth": 1000}
         j = {"id": C.jid("t"), "op": "int2", "method": m, "a": hx(a), "b": hx(b), "c": hx(c), "d": hx(d),
              "f": {"t": "sep", "p": p.job(), "q": q.job()}, "limit_ms": lim, "heavy": True}
+        j["L1_abs"] = l1_norm(p, a, b) * l1_norm(q, c, d)
         C.add(j)
         ix, iy = C.int1(m, a, b, p), C.int1(m, c, d, q)
         C.checks.append({"kind": "separable2", "id": j["id"], "ix": ix, "iy": iy, "method": m, "rect": [a, b, c, d], "p": p, "q": q,
@@ -592,16 +693,40 @@ def job_of(C, jid):
 
 def panic_cause(msg):
     """which failure the panic message names (known finding F5d-panic is the unwrap of quad-rs's MaxIterExceeded)"""
-    if "MaxIterExceeded" in msg:
+    if re.search(r"TrellisError\s*\{\s*cause:\s*MaxIterExceeded\b", msg):
         return "max_iter_exceeded"
     if "Steps too low" in msg or "assertion failed" in msg:
         return "assert"
     return "other"
 
 
-def time_cause(m, dim):
-    """known finding F5d-time is the nested (2-D) use of quad-rs; anything else is reported"""
-    return "nested_adaptive_2d" if (m["m"] == "gk" and dim == 2) else "other"
+def l1_norm(f, a, b):
+    """int_a^b |f| (exact for amp exp(ikx), 64-point midpoint sum for polynomials)"""
+    if isinstance(f, Expi):
+        return abs(b - a) * abs(f.amp)
+    cs = [complex(*c) for c in f.cs]
+
+    def ev(x):
+        acc = 0j
+        for c in reversed(cs):
+            acc = acc * x + c
+        return acc
+    return abs(b - a) * sum(abs(ev(a + (b - a) * (j + 0.5) / 64)) for j in range(64)) / 64
+
+
+def gk_regime(m, l1):
+    """measured on the unchanged tree (quad-rs converges only when the ABSOLUTE error estimate, which scales with int |f|, drops
+    below f64::EPSILON): max_depth <= 30 always panics; with max_depth >= 200 no panic for int|f| <= 2.48 and every case above
+    2.70 panics; with max_depth >= 1000 no panic for int|f| <= 12.2, panics from 21.6.  The `small_integrand` regime keeps a factor 2
+    below those thresholds; a panic inside it is NOT the known finding."""
+    depth = m.get("depth", 0)
+    if l1 is not None and ((depth >= 1000 and l1 < 6.0) or (depth >= 200 and l1 < 1.2)):
+        return "small_integrand"
+    return "iteration_budget"
+
+
+def tol_class(m):
+    return ("%.0e" % fl(m["tol"])) if "tol" in m else None
 
 
 def accuracy_cause(m, f, a, b, o):
@@ -630,25 +755,29 @@ def outcome_problem(ctx, C, o, jid, m, dim, what_input):
         ctx.violation("S5", f"{call_text(m, dim)} crashed the process on {what_input}", dict(msig(m), kind="crash", dim=dim),
                       {"job": job_of(C, jid), "observation": o})
         return False
+    job = job_of(C, jid) or {}
     if o.get("kind") == "timeout":
-        ctx.violation("S5", f"{call_text(m, dim)} did not return within {o['limit_ms'] / 1000:.0f} s on a smooth integrand ({what_input}); "
-                            f"{o.get('evals')} integrand evaluations so far",
-                      dict(msig(m), kind="time", dim=dim, cause=time_cause(m, dim)), {"job": job_of(C, jid), "observation": o})
+        # (timed-out jobs have already been re-run alone with twice the limit: see run())
+        ctx.violation("S5", f"{call_text(m, dim)} did not return within {o['limit_ms'] / 1000:.0f} s on a smooth integrand ({what_input}), "
+                            f"also when re-run alone; {o.get('evals')} integrand evaluations so far",
+                      dict(msig(m), kind="time", dim=dim, cause="wall_clock"), {"job": job, "observation": o})
         return False
     if o.get("kind") == "job_panic" or not o.get("ok", False):
-        msg = (o.get("panic") or "")[:160]
-        ctx.violation("S5", f"{call_text(m, dim)} panics on {what_input}: {msg}",
-                      dict(msig(m), kind="panic", dim=dim, cause=panic_cause(o.get("panic") or "")),
-                      {"job": job_of(C, jid), "observation": o})
+        msg = (o.get("panic") or "")
+        if "evaluation budget exceeded" in msg:
+            ctx.violation("S5", f"{call_text(m, dim)} called the integrand more than {EVAL_BUDGET[dim]} times on a smooth integrand ({what_input}): "
+                                f"not bounded work", dict(msig(m), kind="time", dim=dim, cause="evaluation_budget_exceeded"),
+                          {"job": job, "observation": o})
+            return False
+        sg = dict(msig(m), kind="panic", dim=dim, cause=panic_cause(msg))
+        if m["m"] == "gk":
+            sg.update(depth=m.get("depth"), tol=tol_class(m), regime=gk_regime(m, job.get("L1_abs")))
+        ctx.violation("S5", f"{call_text(m, dim)} panics on {what_input}: {msg[:160]}", sg, {"job": job, "observation": o})
         return False
     if not finite(o):
         ctx.violation("S5", f"{call_text(m, dim)} returns a non-finite value on {what_input}", dict(msig(m), kind="nonfinite", dim=dim),
                       {"job": job_of(C, jid), "observation": o})
         return False
-    if o.get("evals", 0) > EVAL_BUDGET[dim]:
-        ctx.violation("S5", f"{call_text(m, dim)} needs {o['evals']} integrand evaluations ({o['ms'] / 1000:.1f} s) on a smooth integrand ({what_input}); "
-                            f"budget {EVAL_BUDGET[dim]}", dict(msig(m), kind="time", dim=dim, cause=time_cause(m, dim)),
-                      {"job": job_of(C, jid), "observation": o})
     return True
 
 
@@ -704,7 +833,9 @@ def oracle(ctx, C, obs):
             if o is None:
                 continue
             exact = f.exact(a, b)
-            err = cdiff(fval_of(o), exact)
+            err = off_by(m, fval_of(o), exact)
+            if m["m"] == "gk":
+                ctx.count("gk:returned_a_value")
             ctx.sample({"call": call_text(m), "interval": [a, b], "integrand": f.desc(), "result": [fl(o["val"][0]), fl(o["val"][1])],
                         "error": err, "allowed": ck["tol"], "evals": o["evals"]})
             if err > ck["tol"]:
@@ -824,7 +955,7 @@ def oracle(ctx, C, obs):
             if o is None:
                 continue
             ex = cmulq(p.exact(a, b), q.exact(c, d))
-            err = cdiff(fval_of(o), ex)
+            err = off_by(m, fval_of(o), ex)
             ctx.sample({"call": call_text(m, 2), "rect": [a, b, c, d], "result": [fl(o["val"][0]), fl(o["val"][1])], "error": err,
                         "evals": o["evals"], "ms": o["ms"]}, limit=10)
             if err > ck["tol"]:
@@ -846,6 +977,48 @@ def oracle(ctx, C, obs):
             if o and o.get("kind") == "timeout":
                 ctx.note(f"outside the property's range: Integrator::Simpson {{ divs: 0 }}.integrate does not return (usize `0 + 0 % 2 - 2` wraps in "
                          f"release builds; {o.get('evals')} integrand evaluations in {o['limit_ms']} ms); the translated acceptance predicate rejects divs = 0")
+        elif k == "accuracy2":
+            m = ck["method"]
+            a, b, c, d = ck["rect"]
+            what = f"{ck['desc']} on [{a!r},{b!r}]x[{c!r},{d!r}]"
+            ctx.count(f"2d:{mname(m)}:beyond-bicubic")
+            ctx.seen(("acc2", ck["id"]))
+            o = get(ck["id"], m, 2, what)
+            if o is None:
+                continue
+            err = off_by(m, fval_of(o), ck["exact"])
+            if err > ck["tol"]:
+                ctx.violation("S5", f"{call_text(m, 2)} is off by {err:.3e} (allowed {ck['tol']:.3e}: requested tolerance at both levels of the "
+                                    f"nested integration) on {what}", dict(msig(m), kind="accuracy", dim=2, integrand="beyond_bicubic"),
+                              {"job": job_of(C, ck["id"]), "result": [fl(o["val"][0]), fl(o["val"][1])],
+                               "expected": [float(ck["exact"][0]), float(ck["exact"][1])], "error": err, "allowed": ck["tol"], "evals": o["evals"]})
+        elif k == "nest2d":
+            m = ck["method"]
+            ctx.seen(("nest2d", ck["id"]))
+            what = f"f(x,y) = g({'x' if ck['which'] == 'outer' else 'y'}), g = {ck['g'].desc()}, on {ck['rect']}"
+            o = get(ck["id"], m, 2, what)
+            og, oc = obs.get(ck["ig"]), obs.get(ck["ic"])
+            if o is None or not (og and oc and og.get("ok") and oc.get("ok")):
+                continue
+            if m["m"] == "asimp":
+                expected = 5 * og["evals"]          # a constant is accepted at the first level: 5 evaluations
+            else:
+                def passes(ob):
+                    tr = ob.get("trace") or []
+                    for i in range(1, len(tr)):
+                        if tr[i] == tr[0]:
+                            return i, len(tr) - i
+                    return None
+                pg, pc = passes(og), passes(oc)
+                if pg is None or pc is None:
+                    continue
+                expected = pg[0] * pc[0] + pg[1] * pc[1]
+            if o["evals"] != expected:
+                ctx.violation("S5", f"{call_text(m, 2)} made {o['evals']} integrand evaluations on {what}; the nest of two 1-D integrations with the "
+                                    f"requested tolerance at BOTH levels makes {expected} (1-D call on g: {og['evals']}, on a constant: {oc['evals']})",
+                              dict(msig(m), kind="nest2d", dim=2, level=ck["which"]),
+                              {"job": job_of(C, ck["id"]), "job_g": job_of(C, ck["ig"]), "job_const": job_of(C, ck["ic"]),
+                               "evals_2d": o["evals"], "expected": expected})
         elif k == "gl_small_degree":
             o, o2 = obs.get(ck["id"]), obs.get(ck["same_as"])
             ctx.seen(("gl_small", ck["n"]))
@@ -883,6 +1056,16 @@ def correspondence(ctx, C, obs):
         exprs.append((cid, expr))
         meta[cid] = (what, detail)
     gl_tables = {}
+    # every scheduled rule-extraction job must have produced a rule: a missing / failed one is reported, never dropped
+    for ck in C.checks:
+        if ck["kind"] in ("rule1_simpson", "rule2_simpson", "gl_rule", "gl_transfer", "gl_rule2", "gl_small_degree"):
+            o = obs.get(ck["id"])
+            if not (o and o.get("ok")):
+                why = "no observation" if not o else (o.get("kind") if o.get("kind") in ("timeout", "harness_crash", "job_panic") else "panic: " + str(o.get("panic"))[:120])
+                ctx.violation("S4", f"rule extraction {ck['kind']} (job {ck['id']}) produced no rule: {why}",
+                              {"kind": "extraction_failed", "what": ck["kind"]},
+                              {"check": {kk: vv for kk, vv in ck.items() if kk != "c"}, "job": job_of(C, ck["id"]), "observation": o},
+                              found_input=False)
     for ck in C.checks:
         k = ck["kind"]
         o = obs.get(ck.get("id", ""))
@@ -997,6 +1180,11 @@ def correspondence(ctx, C, obs):
             add("mB_" + ck["id"], f"(vclose {qlit(Fraction(TOL12 * S))} (simpson_adaptive_2d Qops {fq} {args}) {cqlit(fval_of(o))} && "
                                   f"(negb (Nat.eqb {calls2(e0)} {calls2(e0 * Fraction(1023, 1024))} && Nat.eqb {calls2(e0)} {calls2(e0 * Fraction(1025, 1024))}) || "
                                   f"Nat.eqb {calls2(e0)} {o['evals']}))%bool", "model_asimp2d", ck)
+    scheduled_gl = sorted(ck["n"] for ck in C.checks if ck["kind"] == "gl_rule")
+    if sorted(gl_tables) != scheduled_gl:
+        ctx.violation("S4", f"Gauss-Legendre rules were extracted for {len(gl_tables)} of the {len(scheduled_gl)} scheduled orders "
+                            f"(missing: {sorted(set(scheduled_gl) - set(gl_tables))[:10]}): their certificates cannot be checked",
+                      {"kind": "extraction_failed", "what": "gl_tables"}, {"missing": sorted(set(scheduled_gl) - set(gl_tables))}, found_input=False)
     res = run_compute_cases(ctx, "C12", IMPORTS, "", exprs, shards=min(NCPU, max(1, len(exprs) // 12)))
     ctx.cov["obligations"] += len(exprs)
     nbad = 0
@@ -1023,6 +1211,10 @@ def correspondence(ctx, C, obs):
             ctx.cov["discharged"] += 1
             continue
         nbad += 1
+        if txt is None:
+            ctx.violation("S4", f"{what}: model evaluation {cid} has no coqc verdict (shard crashed or timed out): unchecked",
+                          {"kind": "unchecked", "what": what}, {"case": cid}, found_input=False)
+            continue
         short = {kk: (vv.desc() if hasattr(vv, "desc") else vv) for kk, vv in ck.items() if kk not in ("c",)}
         ctx.case_failures.append({"case": cid, "kind": what, "result": txt})
         ctx.violation("S4", f"{what}: the translated/modelled kernel run over Q disagrees with the implementation (case {cid}: {str(txt)[:60]})",
@@ -1129,6 +1321,18 @@ def build_findings(ctx):
             ctx.note(f"finding {fid}: refuted lemma {f[:-1]} no longer compiles on this tree — the defect no longer reproduces on the model")
 
 
+def retry_timeouts(ctx, binp, C, obs):
+    """a wall-clock time-out on a loaded machine is not a verdict: every timed-out job is run again alone, with twice the limit,
+    before the oracle sees it (work that is really unbounded is caught machine-independently by the evaluation budget)"""
+    again = [dict(j, limit_ms=2 * j.get("limit_ms", 20000), heavy=True) for j in C.jobs
+             if obs.get(j["id"], {}).get("kind") == "timeout" and j["id"] != "divs0"]
+    if again:
+        ctx.log(f"   re-running {len(again)} timed-out job(s) alone")
+        obs = dict(obs)
+        obs.update(run_jobs(ctx, binp, again))
+    return obs
+
+
 def replay(ctx, binp):
     """re-run the recorded input(s) through the harness and re-evaluate the recorded clause"""
     rec = json.load(open(ctx.replay))
@@ -1189,8 +1393,16 @@ def run(ctx):
     obs0 = run_jobs(ctx, binp, count_jobs(), nproc=4)
     counts = {int(k[1:]): o["evals"] - 1 for k, o in obs0.items() if o.get("ok") and o.get("evals", 0) > 1}
     NODE_COUNTS.update(counts)
+    # the division count read off the running code must stay within 2 of the requested one (C12_norm_bounds)
+    off = [(d, n) for d, n in sorted(counts.items()) if 4 <= d <= 400 and not (d - 2 <= n <= d)]
+    if off:
+        ctx.violation("S5", f"Integrator::Simpson {{ divs: {off[0][0]} }}.integrate evaluates the integrand at {off[0][1] + 1} points ({off[0][1]} divisions), "
+                            f"not the {off[0][0] - 2}..{off[0][0]} divisions requested ({len(off)} of {len(counts)} values of divs in 4..400 are off)",
+                      {"kind": "division_count", "method": "Simpson", "dim": 1},
+                      {"call": f"Integrator::Simpson {{ divs: {off[0][0]} }}.integrate(|x| 0, 0., 1.)", "observed_divisions": off[:20]})
     C = build_cases(ctx, rng, counts=counts)
     obs = run_jobs(ctx, binp, C.jobs)
+    obs = retry_timeouts(ctx, binp, C, obs)
     try:
         os.makedirs(os.path.join(COQ, "Cases", "C12"), exist_ok=True)
         with open(os.path.join(COQ, "Cases", "C12_obs.json"), "w") as fo:
@@ -1198,6 +1410,12 @@ def run(ctx):
     except OSError:
         pass
     oracle(ctx, C, obs)
+    want_gk = sum(1 for c in C.checks if c.get("gk_ok_regime"))
+    got_gk = ctx.cov["histogram"].get("gk:returned_a_value", 0)
+    if got_gk < want_gk:
+        ctx.violation("S5", f"Gauss-Kronrod returned a value on {got_gk} calls only; {want_gk} calls lie in the regime (max_depth >= 200, small integral) "
+                            f"where the unchanged tree never panics (small int|f|) — the accuracy / reversal / linearity clauses are no longer exercised for this method",
+                      {"kind": "gk_coverage", "method": "GaussKonrod"}, {"returned": got_gk, "expected_at_least": want_gk}, found_input=False)
     nbad = 0
     if cases_ok:
         gl_tables, nbad = correspondence(ctx, C, obs)
@@ -1207,26 +1425,26 @@ def run(ctx):
             ctx.note("Gauss-Legendre certificates skipped: Proofs/C12_gl_cert.vo did not build")
     else:
         ctx.note("correspondence cases skipped: generated model did not compile")
+    findings = load_findings()
+
     def baseline(v):
-        """open defects this check re-establishes on every run (known findings F5d, F5e)"""
-        sg = v["sig"]
-        return (sg.get("kind") == "accuracy" and sg.get("method") == "AdaptiveSimpson" and sg.get("cause") == "aliased_first_panel") or \
-            (sg.get("kind") == "panic" and sg.get("method") == "GaussKonrod" and sg.get("cause") == "max_iter_exceeded") or \
-            (sg.get("kind") == "time" and sg.get("method") == "GaussKonrod" and sg.get("cause") == "nested_adaptive_2d")
+        """a violation that is an entry of known_findings.json (the shared matcher decides, not a local list): it must neither
+        stop the search for a failing input nor mask a broken obligation"""
+        return match_finding(v, findings, ctx.prop) is not None
     new_input = any(v["found_input"] and not baseline(v) for v in ctx.violations)
     if (not proved or nbad) and not new_input:
         ctx.log("S5 deep search for a failing input (a proof obligation or a correspondence case is broken)")
         for k in range(2):
             C2 = build_cases(ctx, random.Random(ctx.seed + 7919 * (k + 1)), deep=True, counts=counts)
-            C2.checks = [c for c in C2.checks if c["kind"] in ("accuracy1", "reverse1", "linear1", "separable2", "reverse2", "poly2", "threads", "eval_bound")]
+            C2.checks = [c for c in C2.checks if c["kind"] in ("accuracy1", "reverse1", "linear1", "separable2", "reverse2", "poly2", "threads", "eval_bound", "accuracy2", "nest2d")]
             need = set()
             for c in C2.checks:
-                for key in ("id", "ab", "ba", "ix", "iy"):
+                for key in ("id", "ab", "ba", "ix", "iy", "ig", "ic"):
                     if c.get(key):
                         need.add(c[key])
                 need.update(c.get("ids", []))
             C2.jobs = [j for j in C2.jobs if j["id"] in need and not j.get("heavy")]
-            obs2 = run_jobs(ctx, binp, C2.jobs)
+            obs2 = retry_timeouts(ctx, binp, C2, run_jobs(ctx, binp, C2.jobs))
             oracle(ctx, C2, obs2)
             if any(v["found_input"] and not baseline(v) for v in ctx.violations):
                 break
